@@ -216,6 +216,63 @@ inductive Reachable : St → Prop
   | init : Reachable init
   | step {s s' : St} (a : Action) : Reachable s → step s a = some s' → Reachable s'
 
+/-! ### `m.lock` made explicit around NewEndpoint's critical section
+
+  `NewEndpoint` calls the caller-supplied `MatchFunc` once per pending packet while it holds `m.lock`.  A
+  MatchFunc that takes its time keeps the creator INSIDE the critical section; every other section that takes
+  `m.lock` has to wait.  `lstep` is the system above with that section split into `enter` (lock, register,
+  loop begins) · one `matchCall` per pending packet · `leave` (queue updated, unlock): while a creator is
+  inside, the lock-taking actions of everybody else are disabled; what takes no `m.lock` (the buffer write of
+  a dispatch that already found its endpoint, `buffer.Close`, reads, dispatch of a zero-length datagram) goes on.
+  Nothing the creator does inside is visible to the others before `leave` (the endpoint is unknown outside, the
+  pending queue is only touched under the lock), so the whole effect is the core `newEndpoint` action at `leave`. -/
+
+/-- does this action take `m.lock`? -/
+def Action.takesLock : Action → Bool
+  | .arrive d _ => !d.isEmpty          -- dispatch returns before the lock for a zero-length packet
+  | .write => false
+  | .newEndpoint _ => true
+  | .epClose _ => false
+  | .remove _ => true
+  | .muxClose => true
+  | .read _ => false
+  | .setLimit _ _ => false
+
+structure LSt where
+  st : St := {}
+  holder : Option (Nat × Matcher × Nat) := none   -- creator id, its matcher, MatchFunc calls still to make
+  deriving DecidableEq, Repr
+
+inductive LAction
+  | enter (c : Nat) (m : Matcher)     -- NewEndpoint: `m.lock.Lock()`, registration, the loop over the pending packets begins
+  | matchCall (c : Nat)               -- one `matchFunc(buf)` call of that loop
+  | leave (c : Nat)                   -- loop done: `m.pendingPackets = …`, `m.lock.Unlock()`
+  | free (a : Action)                 -- any action of the core system
+  deriving DecidableEq, Repr
+
+def lstep (s : LSt) : LAction → Option LSt
+  | .enter c m =>
+      match s.holder with
+      | some _ => none                                   -- blocked on m.lock
+      | none => some { s with holder := some (c, m, s.st.pending.length) }
+  | .matchCall c =>
+      match s.holder with
+      | some (c', m, n + 1) => if c = c' then some { s with holder := some (c', m, n) } else none
+      | _ => none
+  | .leave c =>
+      match s.holder with
+      | some (c', m, 0) => if c = c' then (step s.st (.newEndpoint m)).map (fun st => { st := st, holder := none }) else none
+      | _ => none
+  | .free a =>
+      if s.holder.isSome && a.takesLock then none        -- blocked on m.lock
+      else (step s.st a).map (fun st => { s with st := st })
+
+def linit : LSt := {}
+
+inductive LReachable : LSt → Prop
+  | init : LReachable linit
+  | step {s s' : LSt} (a : LAction) : LReachable s → lstep s a = some s' → LReachable s'
+
 /-! ### the unrepaired NewEndpoint, for the record
 
   Before the repair `NewEndpoint` only registered the endpoint under the lock and started
